@@ -19,14 +19,16 @@ vars == <<opts, done, cur>>
 Init == opts \in OptSpace /\ done = <<>> /\ cur = <<>>
 
 HasFatalLine(ls) == \E i \in 1..Len(ls) : IsFatalLine(ls[i])
-Add(ln) == /\ Len(cur) < (IF done = <<>> THEN MaxLines ELSE MaxLater) /\ ~HasFatalLine(cur)
+\* a definition / a skipped branch left open swallows what follows: such a line is the last one (as in Driver_MC)
+Swallows(ls) == \E i \in 1..Len(ls) : ls[i].k = "open" /\ ls[i].t \in {"if0", "mac", "rept"}
+Add(ln) == /\ Len(cur) < (IF done = <<>> THEN MaxLines ELSE MaxLater) /\ ~HasFatalLine(cur) /\ ~Swallows(cur)
            /\ cur' = Append(cur, ln) /\ UNCHANGED <<opts, done>>
 OfKinds(ks) == {ln \in Kinds : ln.k \in ks}
 CodeLine     == \E ln \in OfKinds({"ok", "fwd", "undef"}) : Add(ln)
 InternalDiag == \E ln \in OfKinds({"warn", "err", "fatalI"}) : Add(ln)
 UserDiag     == \E ln \in OfKinds({"uwarn", "uerr", "ufatal"}) : Add(ln)
 ExpectLine   == \E ln \in OfKinds({"expect", "endexpect"}) : Add(ln)
-OpenLine     == \E ln \in OfKinds({"open"}) : ~Opened([ifd |-> 0, rec |-> "none", svd |-> 0, std |-> 0, sed |-> 0, phd |-> 0]) /\ Add(ln)
+OpenLine     == \E ln \in OfKinds({"open"}) : Add(ln)
 ListingLine  == \E ln \in OfKinds({"listing"}) : Add(ln)
 SaveLine     == \E ln \in OfKinds({"lsave"}) : Add(ln)
 RestoreLine  == \E ln \in OfKinds({"lrestore"}) : Add(ln)
@@ -50,6 +52,9 @@ KindsDest == {S("ok"), S("warn"), S("err"), S("uwarn"), S("uerr"), S("ufatal"), 
 \* + the internal fatal error, EXPECT blocks (a met announcement writes nothing, a failed one writes where ListOn stands
 \* at ENDEXPECT) and a construct left open (reported at the end of the pass, where ListOn stands THEN)
 KindsDestAll == KindsDest \cup {S("fatalI"), S("expect"), S("endexpect"), Ln("open", 0, "", "if1"), Ln("open", 0, "", "sec")}
+\* four lines deep (thorough): SAVE / LISTING x / RESTORE / a diagnostic and the like
+KindsDest4 == {S("ok"), S("err"), S("uwarn"), S("fwd"), S("undef"), S("lsave"), S("lrestore")}
+              \cup {Ln("listing", 0, "", t) : t \in {"off", "on", "noskipped"}}
 KindsDest2f == {S("ok"), S("err"), S("uwarn"), S("fwd"), S("lsave"), Ln("listing", 0, "", "off"), Ln("listing", 0, "", "on")}
 
 ---------------------------------------------------------------------------
